@@ -94,6 +94,42 @@ Proof.
 Qed.
 
 (* ------------------------------------------------------------------ *)
+(* the two nested loops of the source = the fused loop of the model    *)
+
+Lemma parse_section_spec : forall S (ps : parsers S) sec lines st,
+  match parse_section ps (parser_of ps sec) st lines with
+  | (st', None) => section_loop ps sec st lines = st'
+  | (st', Some (next, rest)) =>
+      section_loop ps sec st lines = section_loop ps next st' rest
+      /\ (length rest < length lines)%nat
+  end.
+Proof.
+  intros S ps sec. induction lines as [|l r IH]; intros st; [reflexivity|].
+  cbn [parse_section section_loop length].
+  destruct (skip ps l).
+  - specialize (IH st). destruct (parse_section ps (parser_of ps sec) st r) as [st' [[next rest]|]].
+    + destruct IH as [IH1 IH2]. split; [exact IH1|lia].
+    + exact IH.
+  - destruct (section_of_line l) as [next|].
+    + split; [reflexivity|lia].
+    + specialize (IH (fst (parser_of ps sec st l))).
+      destruct (parse_section ps (parser_of ps sec) (fst (parser_of ps sec st l)) r) as [st' [[next rest]|]].
+      * destruct IH as [IH1 IH2]. split; [exact IH1|lia].
+      * exact IH.
+Qed.
+
+Theorem decode_loop_fused : forall S (ps : parsers S) fuel sec st lines,
+  (length lines < fuel)%nat ->
+  decode_loop fuel ps sec st lines = Done (section_loop ps sec st lines).
+Proof.
+  intros S ps. induction fuel as [|k IH]; intros sec st lines Hf; [lia|].
+  cbn [decode_loop]. pose proof (parse_section_spec S ps sec lines st) as H.
+  destruct (parse_section ps (parser_of ps sec) st lines) as [st' [[next rest]|]].
+  - destruct H as [H1 H2]. rewrite IH by lia. rewrite H1. reflexivity.
+  - rewrite H. reflexivity.
+Qed.
+
+(* ------------------------------------------------------------------ *)
 (* T05a: the driver refines the specification                          *)
 
 Section Refinement.
